@@ -72,6 +72,10 @@ def run_trace_job(job):
                 mon = dict(module=mod, generated=r["generated"], distinct=r["distinct"], accepted=r["accepted"],
                            wall=r["wall"], tool_error=r["tool_error"], rejected=r["rejected"])
                 res["monitors"].append(mon)
+                for t in r.get("specfail", []):
+                    # the *std* half of a twin trace disagrees with the reference semantics:
+                    # a defect of this machinery's transcription, not of the code under test
+                    mon["tool_error"] = "SPECFAIL (std disagrees with the spec): %s" % json.dumps(t)[:600]
                 for t in r["drift"]:
                     # <<"DRIFT", name, line, <<p, i, op, ma>>, witness>>
                     try:
